@@ -21,7 +21,6 @@ LEAN = os.path.join(VERIF, "lean")
 HARNESS = os.path.join(VERIF, "harness")
 WORK = os.path.join(VERIF, "work")
 GENERATED = os.path.join(LEAN, "CoapVerif", "Generated")
-DRIVER = os.path.join(LEAN, ".lake", "build", "bin", "driver")
 ALLOWED_AXIOMS = {"propext", "Classical.choice", "Quot.sound"}
 FORBIDDEN = re.compile(r"\bsorry\b|\badmit\b|^\s*axiom\s|native_decide|bv_decide|implemented_by|\bunsafe\s|maxHeartbeats\s+0")
 
@@ -100,7 +99,8 @@ class Lock:
 
 # ---------------------------------------------------------------- step 1: extractor
 
-def run_extractor(ctx):
+def run_extractor(ctx, generated=None):
+    """generated: the Generated/*.lean files this property's model depends on (None = all)."""
     exe = os.path.join(WORK, "extract")
     rc, out = sh([GO, "build", "-tags", "verif", "-o", exe, "./cmd/extract"], cwd=HARNESS, env=GOENV)
     if rc != 0:
@@ -114,6 +114,11 @@ def run_extractor(ctx):
     if changed:
         ctx.log("generated files changed:", changed)
     ctx.generated_changed = changed
+    for l in out.splitlines():
+        if l.startswith("failed "):
+            f, _, why = l[len("failed "):].partition(": ")
+            if generated is None or f in generated:
+                ctx.broken.append(("translator", "extractor cannot regenerate Generated/" + f, why))
     return True
 
 
@@ -215,14 +220,16 @@ def build_proofs(ctx, modules):
     return all_ok
 
 
-def build_driver(ctx):
+def build_driver(ctx, prop=None):
+    """Builds the per-property driver executable drv_cxx; returns its path or None."""
+    name = "drv_" + (prop or ctx.prop).lower()
     t = time.time()
-    rc, out = sh(["lake", "build", "driver"], cwd=LEAN, timeout=3000)
-    ctx.log("lake build driver rc=%d (%.1fs)" % (rc, time.time() - t))
+    rc, out = sh(["lake", "build", name], cwd=LEAN, timeout=3000)
+    ctx.log("lake build %s rc=%d (%.1fs)" % (name, rc, time.time() - t))
     if rc != 0:
-        ctx.broken.append(("model", "driver-build", out[-2000:]))
-        return False
-    return True
+        ctx.broken.append(("model", "driver-build " + name, out[-2000:]))
+        return None
+    return os.path.join(LEAN, ".lake", "build", "bin", name)
 
 
 def leanchecker(ctx, modules):
@@ -238,19 +245,27 @@ def leanchecker(ctx, modules):
 
 # ---------------------------------------------------------------- step 4: harness
 
-def build_hx(ctx):
-    exe = os.path.join(WORK, "hx")
-    rc, out = sh([GO, "build", "-tags", "verif", "-o", exe, "./cmd/hx"], cwd=HARNESS, env=GOENV, timeout=900)
+def build_hx(ctx, pkg=None):
+    """go build of the stateless harness command harness/<pkg> (package main)."""
+    pkg = pkg or ctx.prop.lower()
+    exe = os.path.join(WORK, "hx_" + pkg)
+    rc, out = sh([GO, "build", "-tags", "verif", "-o", exe, "./" + pkg], cwd=HARNESS, env=GOENV, timeout=900)
     if rc != 0:
-        ctx.broken.append(("correspondence", "harness-build hx", out[-2000:]))
+        ctx.broken.append(("correspondence", "harness-build " + pkg, out[-2000:]))
         return None
     return exe
 
 
-def build_test(ctx, pkg):
-    """go test -c of harness/<pkg> (synctest based harnesses)."""
-    exe = os.path.join(WORK, pkg.replace("/", "_") + ".test")
-    rc, out = sh([GO, "test", "-c", "-tags", "verif", "-o", exe, "./" + pkg], cwd=HARNESS, env=GOENV, timeout=900)
+def build_test(ctx, pkg=None, race=False):
+    """go test -c of harness/<pkg> (synctest based harnesses, *_test.go files)."""
+    pkg = pkg or ctx.prop.lower()
+    exe = os.path.join(WORK, "ht_" + pkg.replace("/", "_") + (".race" if race else "") + ".test")
+    cmd = [GO, "test", "-c", "-tags", "verif", "-o", exe]
+    env = GOENV
+    if race:
+        cmd.append("-race")
+        env = dict(GOENV, CGO_ENABLED="1")
+    rc, out = sh(cmd + ["./" + pkg], cwd=HARNESS, env=env, timeout=900)
     if rc != 0:
         ctx.broken.append(("correspondence", "harness-build " + pkg, out[-2000:]))
         return None
@@ -263,6 +278,31 @@ def pipe_lines(cmd, lines, timeout=1800, env=None, cwd=None):
     p = subprocess.run(cmd, input=data, stdout=subprocess.PIPE, stderr=subprocess.PIPE, text=True,
                        timeout=timeout, env=env, cwd=cwd)
     return p.returncode, p.stdout.splitlines(), p.stderr[-2000:]
+
+
+def run_test_harness(ctx, exe, test, lines, timeout=1800, tag="x", env=None):
+    """Runs a `go test -c` harness binary on input lines (files $VERIF_IN/$VERIF_OUT). Returns output lines or None."""
+    inp = os.path.join(ctx.work, tag + ".in")
+    outp = os.path.join(ctx.work, tag + ".out")
+    open(inp, "w").write("\n".join(lines) + "\n")
+    if os.path.exists(outp):
+        os.remove(outp)
+    e = dict(os.environ, VERIF_IN=inp, VERIF_OUT=outp, VERIF_SEED=str(ctx.seed), VERIF_TIER=ctx.tier)
+    if env:
+        e.update(env)
+    try:
+        p = subprocess.run([exe, "-test.run", "^" + test + "$", "-test.timeout", "%ds" % timeout], cwd=ctx.work, env=e,
+                           stdout=subprocess.PIPE, stderr=subprocess.STDOUT, text=True, timeout=timeout + 30)
+    except subprocess.TimeoutExpired:
+        ctx.broken.append(("correspondence", "harness %s timed out" % test, ""))
+        return None
+    out = open(outp).read().splitlines() if os.path.exists(outp) else []
+    if p.returncode != 0 or len(out) != len(lines):
+        ctx.broken.append(("correspondence", "harness %s failed (rc=%d, %d/%d lines)" % (test, p.returncode, len(out), len(lines)),
+                           p.stdout[-3000:]))
+        ctx.harness_log = p.stdout
+        return out if out else None
+    return out
 
 
 # ---------------------------------------------------------------- step 6: verdict
@@ -330,16 +370,15 @@ def finish(ctx, level="proof", checker_cmd=None):
     return 1 if nviol else 0
 
 
-def standard_prepare(ctx, modules, need_hx=True, test_pkgs=()):
+def standard_prepare(ctx, modules, hx=True, test=False, generated=None):
     """Steps 1-4 under the build lock. Returns dict of built artefacts (None where a build failed)."""
     art = {}
     with Lock():
-        run_extractor(ctx)
+        run_extractor(ctx, generated)
         art["proofs_ok"] = build_proofs(ctx, modules)
-        art["driver"] = DRIVER if build_driver(ctx) else None
-        art["hx"] = build_hx(ctx) if need_hx else None
-        for p in test_pkgs:
-            art[p] = build_test(ctx, p)
+        art["driver"] = build_driver(ctx)
+        art["hx"] = build_hx(ctx) if hx else None
+        art["test"] = build_test(ctx) if test else None
     if ctx.tier == "thorough":
         leanchecker(ctx, modules)
     return art
